@@ -33,10 +33,17 @@ func (k Keeper) OnCollectFee(ctx sdk.Context, pool types.Pool, fee sdk.Coins) er
 	}
 
 	// handling the case, pool does not enough liquidity to swap fees to revenue token when liquidity is being fully removed
+	// The conversion swaps on the caller's in-memory pool: pool is passed by value but its asset slice is shared, and the
+	// caller goes on to save that pool. A conversion that fails after it has applied its swap in memory must leave no trace
+	// there either, or the caller persists reserves that no transfer backs.
+	savedAssets := make([]types.PoolAsset, len(pool.PoolAssets))
+	copy(savedAssets, pool.PoolAssets)
 	cacheCtx, write := ctx.CacheContext()
 	err = k.SwapFeesToRevenueToken(cacheCtx, pool, revenueAmount)
 	if err == nil {
 		write()
+	} else {
+		copy(pool.PoolAssets, savedAssets)
 	}
 	return nil
 }
